@@ -1539,7 +1539,12 @@ void OPNMIDIplay::killSustainingNotes(int32_t midCh, int32_t this_adlchn, uint32
                     hooks.onNote(hooks.onNote_userData, static_cast<int>(c), jd.loc.note, midiins, 0, 0.0);
                 jd.sustained &= ~sustain_type;
                 if(jd.sustained == OpnChannel::LocationData::Sustain_None)
-                    m_chipChannels[c].users.erase(j);//Remove only when note is clean from any holders
+                {
+                    // A key that is still down (sostenuto pressed and released under it) keeps its channel
+                    MIDIchannel::notes_iterator k = m_midiChannels[jd.loc.MidCh].find_activenote(jd.loc.note);
+                    if(k.is_end() || !k->value.phys_find(c))
+                        m_chipChannels[c].users.erase(j);//Remove only when note is clean from any holders
+                }
             }
         }
 
